@@ -258,6 +258,12 @@ Definition obs_cool (ncols : nat) (c : @cool (list Z)) :=
    map (fun k => sparse_full (c_symm c) (col_px k (read_pixels c))) (seq 0 ncols)).
 Definition obs_create (ncols : nat) (r : cerr + @cool (list Z)) :=
   match r with inl e => inl e | inr c => inr (obs_cool ncols c) end.
+(** the same without the dense view (tables with hundreds of bins: the sparse view is compared) *)
+Definition obs_cool_sparse (ncols : nat) (c : @cool (list Z)) :=
+  (c_rows c, c_nnz c, c_sum c, c_symm c, read_pixels c, ([] : list (list Z)),
+   map (fun k => sparse_full (c_symm c) (col_px k (read_pixels c))) (seq 0 ncols)).
+Definition obs_create_sparse (ncols : nat) (r : cerr + @cool (list Z)) :=
+  match r with inl e => inl e | inr c => inr (obs_cool_sparse ncols c) end.
 Definition rows_of_px (l : list pixel) : list (key * list Z) := map (fun p => (fst p, [snd p])) l.
 
 (** * C13: create() as a step machine over a small file model.
